@@ -54,6 +54,13 @@ def set_keepalive(sock, after_idle_sec=1, interval_sec=3, max_fails=5):
         set_keepalive_windows(sock, after_idle_sec, interval_sec, max_fails)
 
 
+class _NoMessage(object):
+    """Returned by __processParseMessage when the read buffer holds no complete frame (any unpickled
+    value, None included, is a message)."""
+
+_NO_MESSAGE = _NoMessage()
+
+
 class TcpConnection(object):
 
     def __init__(self, poller, onMessageReceived = None, onConnected = None, onDisconnected = None,
@@ -218,7 +225,7 @@ class TcpConnection(object):
 
             while True:
                 message = self.__processParseMessage()
-                if message is None:
+                if message is _NO_MESSAGE:
                     break
                 if self.__onMessageReceived is not None:
                     self.__onMessageReceived(message)
@@ -277,13 +284,13 @@ class TcpConnection(object):
 
     def __processParseMessage(self):
         if len(self.__readBuffer) < 4:
-            return None
+            return _NO_MESSAGE
         l = struct.unpack('i', self.__readBuffer[:4])[0]
         if l < 0:
             self.disconnect()
-            return None
+            return _NO_MESSAGE
         if len(self.__readBuffer) - 4 < l:
-            return None
+            return _NO_MESSAGE
         data = self.__readBuffer[4:4 + l]
         try:
             if self.encryptor:
@@ -299,7 +306,7 @@ class TcpConnection(object):
         except:
             # Why no logging of security errors?
             self.disconnect()
-            return None
+            return _NO_MESSAGE
         self.__readBuffer = self.__readBuffer[4 + l:]
         return message
 
